@@ -7,7 +7,7 @@ import random
 from .. import common as C
 from ..gen_inv import PlanGen
 from .. import progcheck as PC
-from . import shape
+from . import shape, expandcorr
 
 
 def plan_summary(plan):
@@ -160,4 +160,6 @@ def run(prop, tier, seed, replay, clauses, n_quick, n_thorough, rule, gen_kw=Non
         return None
 
     shape.validate(rep, exe, shape_cases, prop, excuse=excuse)
+    # the Lean model of the three generators (Expand.lean) against the real helper trait / helper impls / main impl
+    expandcorr.compare(rep, exe, shape_cases)
     return rep.finish()
